@@ -4,6 +4,7 @@ import (
 	"bytes"
 	"crypto/sha256"
 	"encoding/hex"
+	"errors"
 	"fmt"
 	"io"
 	"os"
@@ -14,6 +15,7 @@ import (
 
 	"verif/mc/bind"
 	"verif/mc/core"
+	"verif/mc/env"
 	"verif/mc/explore"
 	"verif/mc/gen"
 	"verif/mc/spec"
@@ -242,7 +244,9 @@ func c11OrderFinding(t c11Target, op string, choices []int, uniform bool) *core.
 		Detail: fmt.Sprintf("%s: %s depends on map iteration order: sorted order gives %s, ordering %v gives %s", t.describe(), op, clip(ref, 160), choices, clip(got, 160))}
 }
 
-var c11Ops = []string{"WriteTo", "String", "Dump", "WellFormed", "accessors"}
+var errC11Writer = errors.New("c11: writer failed")
+
+var c11Ops = []string{"WriteTo", "String", "Dump", "WellFormed", "accessors", "WriteTo(a writer that fails after one byte)"}
 
 func c11Apply(q mq.Packet, op string) {
 	switch op {
@@ -256,6 +260,8 @@ func c11Apply(q mq.Packet, op string) {
 		if w, ok := q.(mq.HasWellFormed); ok {
 			_ = w.WellFormed()
 		}
+	case "WriteTo(a writer that fails after one byte)":
+		q.WriteTo(&env.Writer{FailAfter: 1, E: errC11Writer})
 	case "accessors":
 		_ = observeKV(q)
 	}
@@ -297,6 +303,23 @@ func c11ReadOnly(t c11Target, seq []int) *core.Finding {
 	if _, isU := q.(*mq.Undefined); !isU && wres.Panic == "" && !bytes.Equal(w0, first) {
 		return &core.Finding{Class: "encoding-changes/after-accessors/" + gen.Schemas[t.Type].Name, Sig: map[string]string{"type": gen.Schemas[t.Type].Name},
 			Detail: fmt.Sprintf("%s: written before any accessor was called %s, written again after the accessors, String and Dump were called %s", desc, abbrevHex(w0), abbrevHex(first))}
+	}
+	if _, isU := q.(*mq.Undefined); !isU && len(seq) <= 1 && wres.Panic == "" {
+		// equal packets encode to the same bytes whatever they are written
+		// to: writers that have been used before (a bufio.Writer's buffer
+		// memory holds what went through it earlier), writers of other types
+		for wk := env.WBufio16; wk < env.NWKinds; wk++ {
+			sw := &env.Writer{FailAfter: -1}
+			ww, collect := env.WrapWriter(wk, sw)
+			res := guarded(0, func() { q.WriteTo(ww) })
+			if res.Panic != "" {
+				break
+			}
+			if got := collect(); !bytes.Equal(got, first) {
+				return &core.Finding{Class: "encoding-depends-on-writer/" + wk.String() + "/" + gen.Schemas[t.Type].Name, Sig: map[string]string{"type": gen.Schemas[t.Type].Name, "writer": wk.String()},
+					Detail: fmt.Sprintf("%s: written to a bytes.Buffer %s, written to a %s that was used before %s", desc, abbrevHex(first), wk, abbrevHex(got))}
+			}
+		}
 	}
 	names := []string{}
 	for _, oi := range seq {
